@@ -51,7 +51,7 @@ def structured(fam, rng):
 def plan(tier, seed):
     shards = []
     no = 0
-    reps = 2 if tier == "quick" else 30
+    reps = 2 if tier == "quick" else 150
     for fam in ("fq2", "fq6", "fq12"):
         for part in ("grid", "frob", "sparse"):
             shards.append(dict(no=no, fam=fam, part=part, idx=0)); no += 1
